@@ -113,7 +113,13 @@ pub fn cover_f64(p: (f64, f64), pos: &[Point], tris: &[(u32, u32, u32)]) -> (usi
         if !(neg && posi) && (d1 != 0.0 || d2 != 0.0 || d3 != 0.0) {
             closed += 1;
         }
-        if (d1 > 0.0 && d2 > 0.0 && d3 > 0.0) || (d1 < 0.0 && d2 < 0.0 && d3 < 0.0) {
+        // interior with a margin: a sliver triangle (three almost collinear vertices, the f32 image of a degenerate
+        // one) has no such interior, and a point within rounding distance of an edge is not counted twice
+        let len = |u: Point, v: Point| ((v.x as f64 - u.x as f64).hypot(v.y as f64 - u.y as f64)).max(1e-30);
+        let scale = [a, b, c].iter().fold(1.0f64, |m, q| m.max(q.x.abs() as f64).max(q.y.abs() as f64));
+        let delta = 2e-5 * scale;
+        let (e1, e2, e3) = (d1 / len(a, b), d2 / len(b, c), d3 / len(c, a));
+        if (e1 > delta && e2 > delta && e3 > delta) || (e1 < -delta && e2 < -delta && e3 < -delta) {
             open += 1;
         }
     }
@@ -206,6 +212,51 @@ struct Cx<'a> {
     overlap: bool,
 }
 
+
+/// integer-lattice polygon in degenerate position: some vertex lies exactly on the interior of another edge, or two
+/// edges are collinear and overlap in more than a point
+pub fn degenerate_position(spec: &PathSpec) -> bool {
+    let mut edges: Vec<((i64, i64), (i64, i64))> = Vec::new();
+    let mut verts: Vec<(i64, i64)> = Vec::new();
+    for s in &spec.subs {
+        let mut pts = vec![(s.start.x as i64, s.start.y as i64)];
+        for g in &s.segs {
+            if let Seg::Line(p, _) = g {
+                pts.push((p.x as i64, p.y as i64));
+            } else {
+                return false;
+            }
+        }
+        for i in 0..pts.len() {
+            let (a, b) = (pts[i], pts[(i + 1) % pts.len()]);
+            if a != b {
+                edges.push((a, b));
+            }
+        }
+        verts.extend(pts);
+    }
+    let cross = |a: (i64, i64), b: (i64, i64), c: (i64, i64)| (b.0 - a.0) * (c.1 - a.1) - (b.1 - a.1) * (c.0 - a.0);
+    let strictly_between = |a: (i64, i64), b: (i64, i64), p: (i64, i64)| -> bool {
+        cross(a, b, p) == 0 && p != a && p != b && (p.0 - a.0) * (p.0 - b.0) <= 0 && (p.1 - a.1) * (p.1 - b.1) <= 0
+    };
+    for (a, b) in &edges {
+        if verts.iter().any(|p| strictly_between(*a, *b, *p)) {
+            return true;
+        }
+    }
+    for (i, (a, b)) in edges.iter().enumerate() {
+        for (c, d) in edges.iter().skip(i + 1) {
+            if cross(*a, *b, *c) == 0 && cross(*a, *b, *d) == 0 {
+                // collinear: overlap in more than a point if an endpoint of one is strictly inside the other, or equal edges
+                if strictly_between(*a, *b, *c) || strictly_between(*a, *b, *d) || strictly_between(*c, *d, *a) || strictly_between(*c, *d, *b) || (a == c && b == d) || (a == d && b == c) {
+                    return true;
+                }
+            }
+        }
+    }
+    false
+}
+
 fn run_poly(cx: &mut Cx, spec: &PathSpec, k: usize, origin: &str, to_coq: bool) {
     use std::io::Write;
     let rule = if k % 2 == 0 { FillRule::EvenOdd } else { FillRule::NonZero };
@@ -241,7 +292,13 @@ fn run_poly(cx: &mut Cx, spec: &PathSpec, k: usize, origin: &str, to_coq: bool) 
     let edges64 = outline_edges(spec, 0.01);
     let band = tol as f64;
     if let Some(msg) = direct_coverage(&edges64, &out.positions, &out.tris, rule, band + 1e-4, &mut cx.rng, true) {
-        cx.st.fail(jobj(&[("what", jstr(&format!("fill does not cover exactly the fill-rule interior: {}", msg))), ("input", jstr(&label))]));
+        let mut f = vec![("what", jstr(&format!("fill does not cover exactly the fill-rule interior: {}", msg))), ("input", jstr(&label))];
+        // known finding K14: many-vertex self-intersecting polygons in degenerate position (a vertex exactly on
+        // the interior of another edge, or collinear overlapping edges)
+        if origin == "tangle" && degenerate_position(spec) {
+            f.push(("class", jstr("K14")));
+        }
+        cx.st.fail(jobj(&f));
     }
     // area: sum of triangle areas = area of the filled region (computed from the signed areas is only
     // possible for simple regions; here: triangles do not overlap (checked above) and cover exactly)
@@ -324,6 +381,18 @@ pub fn main(args: &Args) -> std::io::Result<()> {
             _ => random_polygonal(&mut r, 2, 10, 8),
         };
         run_poly(&mut cx, &spec, k, "random", i % 6 == 0 || (args.thorough() && i % 2 == 0));
+        k += 1;
+    }
+    // tangles: one closed polygon with many random lattice vertices (many self-intersections, short active edges
+    // between an edge and the edges it crosses further down)
+    let n_tangle = if args.thorough() { 100000 } else { 12000 };
+    for i in 0..n_tangle {
+        let mut r = Rng::new(cx.rng.next_u64());
+        let m = 6 + r.below(7) as usize;
+        let grid = *r.pick(&[6i64, 10, 14]);
+        let pts: Vec<(f32, f32)> = (0..m).map(|_| (r.range(-2, grid) as f32, r.range(-2, grid) as f32)).collect();
+        let spec = PathSpec::from_polylines(&[pts], &[true]);
+        run_poly(&mut cx, &spec, k, "tangle", i % 400 == 0 || (args.thorough() && i % 200 == 0));
         k += 1;
     }
     // simple y-monotone polygons whose two chains meander over the whole width (long pending chains in the
@@ -642,6 +711,101 @@ pub fn main_c03(args: &Args) -> std::io::Result<()> {
             if !matches!(r, Some((true, n)) if n > 3) {
                 st.fail(jobj(&[("what", jstr("path-level shape helper through the fill builder failed")), ("input", jstr(&format!("helper {} {:?}", it % 4, r)))]));
             }
+        }
+    }
+    // rounded rectangles: per-corner radii (some zero), both windings, through the fill builder and through a Path;
+    // the offset of a rounded rectangle by m is the rounded rectangle with box and radii grown / shrunk by m
+    {
+        use lyon_path::builder::BorderRadii;
+        let n_rr = if args.thorough() { 1500 } else { 200 };
+        for it in 0..n_rr {
+            let (x0, y0) = (rng.range(-10, 10) as f32, rng.range(-10, 10) as f32);
+            let (wd, ht) = (4.0 + rng.below(36) as f32, 4.0 + rng.below(36) as f32);
+            let half = wd.min(ht) * 0.5;
+            let mut rad = |r: &mut Rng| -> f32 { if r.chance(1, 3) { 0.0 } else { (1 + r.below(8)) as f32 / 8.0 * half } };
+            let radii = BorderRadii { top_left: rad(&mut rng), top_right: rad(&mut rng), bottom_left: rad(&mut rng), bottom_right: rad(&mut rng) };
+            let winding = if rng.chance(1, 2) { Winding::Positive } else { Winding::Negative };
+            let tol = *rng.pick(&[0.02f32, 0.1]);
+            let rule = if rng.chance(1, 2) { FillRule::EvenOdd } else { FillRule::NonZero };
+            let opts = FillOptions::tolerance(tol).with_fill_rule(rule);
+            let rect = Box2D { min: point(x0, y0), max: point(x0 + wd, y0 + ht) };
+            let via_path = rng.chance(1, 2);
+            let label = format!("add_rounded_rectangle {:?} {:?} {:?} tol {} {:?} via {}", rect, radii, winding, tol, rule, if via_path { "Path" } else { "FillBuilder" });
+            st.inc("evaluations");
+            st.inc("rounded_rectangles");
+            st.note_case(&label, true);
+            let r = catch(AssertUnwindSafe(|| {
+                let mut buffers: VertexBuffers<Point, u32> = VertexBuffers::new();
+                let mut tess = FillTessellator::new();
+                let ok = if via_path {
+                    let mut pb = lyon_path::Path::builder();
+                    pb.add_rounded_rectangle(&rect, &radii, winding);
+                    let p = pb.build();
+                    tess.tessellate_path(&p, &opts, &mut lyon_tessellation::geometry_builder::BuffersBuilder::new(&mut buffers, lyon_tessellation::geometry_builder::Positions)).is_ok()
+                } else {
+                    let mut sb = lyon_tessellation::geometry_builder::BuffersBuilder::new(&mut buffers, lyon_tessellation::geometry_builder::Positions);
+                    let mut b = tess.builder(&opts, &mut sb);
+                    b.add_rounded_rectangle(&rect, &radii, winding);
+                    lyon_path::traits::Build::build(b).is_ok()
+                };
+                (ok, buffers)
+            }));
+            let (ok, buffers) = match r {
+                Some(x) => x,
+                None => {
+                    st.fail(jobj(&[("what", jstr("filling a rounded rectangle panicked")), ("input", jstr(&label))]));
+                    continue;
+                }
+            };
+            if !ok {
+                st.fail(jobj(&[("what", jstr("filling a rounded rectangle failed")), ("input", jstr(&label))]));
+                continue;
+            }
+            // inside test for the rounded rectangle offset by m (m < 0 shrinks)
+            let inside = |q: (f64, f64), m: f64| -> bool {
+                let (lx, ly, hx, hy) = (x0 as f64 - m, y0 as f64 - m, (x0 + wd) as f64 + m, (y0 + ht) as f64 + m);
+                if q.0 <= lx || q.0 >= hx || q.1 <= ly || q.1 >= hy {
+                    return false;
+                }
+                // (corner position, radius, direction into the rectangle); y grows downwards: "top" is min y
+                let corners = [
+                    ((lx, ly), radii.top_left as f64, (1.0, 1.0)),
+                    ((hx, ly), radii.top_right as f64, (-1.0, 1.0)),
+                    ((lx, hy), radii.bottom_left as f64, (1.0, -1.0)),
+                    ((hx, hy), radii.bottom_right as f64, (-1.0, -1.0)),
+                ];
+                for (c, r0, d) in corners {
+                    let r = (r0 + m).max(0.0);
+                    let centre = (c.0 + d.0 * r, c.1 + d.1 * r);
+                    let (dx, dy) = ((q.0 - centre.0) * d.0, (q.1 - centre.1) * d.1);
+                    if dx < 0.0 && dy < 0.0 && dx * dx + dy * dy >= r * r {
+                        return false;
+                    }
+                }
+                true
+            };
+            let tris: Vec<(u32, u32, u32)> = buffers.indices.chunks(3).map(|t| (t[0], t[1], t[2])).collect();
+            let m = tol as f64 + 1e-3;
+            let g = 40;
+            let mut reported = false;
+            for gy in 0..=g {
+                for gx in 0..=g {
+                    let q = (x0 as f64 - 2.0 + (wd as f64 + 4.0) * (gx as f64 + 0.31) / g as f64, y0 as f64 - 2.0 + (ht as f64 + 4.0) * (gy as f64 + 0.47) / g as f64);
+                    let (closed, _) = cover_f64(q, &buffers.vertices, &tris);
+                    let bad = if inside(q, -m) && closed == 0 {
+                        Some("a point of the rounded rectangle farther than the tolerance from its boundary is not covered")
+                    } else if !inside(q, m) && closed > 0 {
+                        Some("a point outside the rounded rectangle, farther than the tolerance from its boundary, is covered")
+                    } else {
+                        None
+                    };
+                    if let (Some(b), false) = (bad, reported) {
+                        st.fail(jobj(&[("what", jstr(b)), ("input", jstr(&format!("point {:?} :: {}", q, label)))]));
+                        reported = true;
+                    }
+                }
+            }
+            let _ = it;
         }
     }
     w.finish()?;
